@@ -18,11 +18,22 @@ type frameSpec struct {
 }
 
 type addrRange struct {
-	base Term
+	rgn  Term
+	off  Term
 	size Term // 1 for single cells
 }
 
 // FuncResult is what verifying one contract block produced.
+// runInfo is what the replay generator needs to know about the symbolic inputs
+// of the run an obligation belongs to.
+type runInfo struct {
+	entry *State
+	recv  Value
+	args  []Value
+	sig   *types.Signature
+	x     *Exec
+}
+
 type FuncResult struct {
 	Contract   *Contract
 	Name       string
@@ -38,18 +49,18 @@ type FuncResult struct {
 	Ctx        *Ctx
 }
 
-func (x *Exec) noteWrite(s *State, mem string, addr Term) {
+func (x *Exec) noteWrite(s *State, mem string, rgn, off Term) {
 	if x.frameSet == nil || x.spec > 0 {
 		return
 	}
-	x.frameObl(s, mem, addr, I64(1))
+	x.frameObl(s, mem, rgn, off, I64(1))
 }
 
-func (x *Exec) noteWriteRange(s *State, mem string, base, n Term) {
+func (x *Exec) noteWriteRange(s *State, mem string, rgn, off, n Term) {
 	if x.frameSet == nil || x.spec > 0 {
 		return
 	}
-	x.frameObl(s, mem, base, n)
+	x.frameObl(s, mem, rgn, off, n)
 }
 
 func (x *Exec) noteWriteAll(s *State, why string) {
@@ -59,25 +70,22 @@ func (x *Exec) noteWriteAll(s *State, why string) {
 	x.oblige(s, "frame", "frame@everything", False, token.NoPos, "assigns clause violated: "+why)
 }
 
-func (x *Exec) frameObl(s *State, mem string, base, n Term) {
+func (x *Exec) frameObl(s *State, mem string, rgn, base, n Term) {
 	if x.noObl > 0 {
 		return
 	}
-	// locals (fresh allocations) are always writable: a region tagged local/alloc containing the range
-	var ok []Term
-	for _, r := range s.regions {
-		if (r.tag == "local" || r.tag == "alloc") && strings.HasPrefix(mem, r.mem) {
-			ok = append(ok, And(Ule(r.base, base), Ule(Add64(base, n), Add64(r.base, r.size))))
-		}
-	}
-	for _, ar := range x.frameSet.allowed[mem] {
-		ok = append(ok, And(Ule(ar.base, base), Ule(Add64(base, n), Add64(ar.base, ar.size))))
-	}
-	g := Or(ok...)
 	if n.IsC && n.C == 0 {
 		return
 	}
-	x.oblige(s, "frame", "frame@"+mem, Or(g, Eq(n, I64(0))), token.NoPos, "write to "+mem+" stays within the assigns clause")
+	if rgn.IsC && rgn.C >= firstAlloc {
+		return // a region allocated by this function
+	}
+	// regions allocated during the call are always writable
+	ok := []Term{Ule(BVLit(firstAlloc, 64), rgn)}
+	for _, ar := range x.frameSet.allowed[mem] {
+		ok = append(ok, And(Eq(rgn, ar.rgn), Ule(ar.off, base), Ule(Add64(base, n), Add64(ar.off, ar.size))))
+	}
+	x.oblige(s, "frame", "frame@"+mem, Or(append(ok, Eq(n, I64(0)))...), token.NoPos, "write to "+mem+" stays within the assigns clause")
 }
 
 func (x *Exec) buildFrame(s *State, fr *Frame, c *Contract) {
@@ -89,17 +97,17 @@ func (x *Exec) buildFrame(s *State, fr *Frame, c *Contract) {
 	defer func() { x.noObl-- }()
 	for _, a := range c.Assigns {
 		t := fr.info.TypeOf(a.Expr)
-		if st, ok := t.Underlying().(*types.Slice); ok && !(x.opaque && isByteSlice(t)) {
+		if st, ok := t.Underlying().(*types.Slice); ok && strings.HasSuffix(a.Text, "[*]") && !(x.opaque && isByteSlice(t)) {
 			sv := x.expr(s.fork(), fr, a.Expr).(*SliceV)
 			for _, l := range x.leaves(st.Elem()) {
-				fs.allowed[memName(st.Elem())+l.path] = append(fs.allowed[memName(st.Elem())+l.path], addrRange{sv.Ptr, sv.Cap})
+				fs.allowed[memName(st.Elem())+l.path] = append(fs.allowed[memName(st.Elem())+l.path], addrRange{sv.Rgn, sv.Off, sv.Cap})
 			}
 			continue
 		}
 		if at, ok := t.Underlying().(*types.Array); ok {
 			av := x.expr(s.fork(), fr, a.Expr).(*ArrayRef)
 			for _, l := range x.leaves(at.Elem()) {
-				fs.allowed[memName(at.Elem())+l.path] = append(fs.allowed[memName(at.Elem())+l.path], addrRange{av.Base, I64(av.N)})
+				fs.allowed[memName(at.Elem())+l.path] = append(fs.allowed[memName(at.Elem())+l.path], addrRange{av.Rgn, av.Off, I64(av.N)})
 			}
 			continue
 		}
@@ -107,7 +115,7 @@ func (x *Exec) buildFrame(s *State, fr *Frame, c *Contract) {
 		switch l := loc.(type) {
 		case *heapLoc:
 			for _, lf := range x.leaves(t) {
-				fs.allowed[l.prefix+lf.path] = append(fs.allowed[l.prefix+lf.path], addrRange{l.addr, I64(1)})
+				fs.allowed[l.prefix+lf.path] = append(fs.allowed[l.prefix+lf.path], addrRange{l.rgn, l.off, I64(1)})
 			}
 		case *varLoc:
 			// local/parameter variable: always assignable
@@ -150,6 +158,38 @@ func Verify(w *World, c *Contract) (res *FuncResult) {
 		x.note("assumed", "contract of "+res.Name+" is trusted (not verified against its body)")
 		return res
 	}
+	// Path splitting: selected nondeterministic choices (append grows or not) are
+	// explored by re-executing the body once per combination of decisions, which
+	// keeps the terms free of ite-laden address arithmetic.
+	x.decisions = nil
+	totalRet := 0
+	for run := 0; run < 64; run++ {
+		x.decisionPos = 0
+		x.allocs = 0
+		x.globals = map[types.Object]Value{}
+		x.frameSet = nil
+		x.stack = nil
+		totalRet += verifyRun(w, c, x, res)
+		// next decision vector: drop trailing trues, flip the last false
+		d := x.decisions[:min(len(x.decisions), x.decisionPos)]
+		for len(d) > 0 && d[len(d)-1] {
+			d = d[:len(d)-1]
+		}
+		if len(d) == 0 {
+			break
+		}
+		d[len(d)-1] = true
+		x.decisions = d
+	}
+	if totalRet == 0 && (len(c.Ensures) > 0) {
+		x.errs = append(x.errs, "no reachable return in "+res.Name)
+	}
+	return res
+}
+
+// verifyRun executes the body once under the current decision vector and emits
+// its obligations; it returns the number of reachable returns.
+func verifyRun(w *World, c *Contract, x *Exec, res *FuncResult) int {
 	s := newState()
 	var sig *types.Signature
 	var recvFL *ast.FieldList
@@ -173,6 +213,7 @@ func Verify(w *World, c *Contract) (res *FuncResult) {
 	mk := func(v *types.Var, hint string) Value {
 		val := x.fresh(s, v.Type(), hint)
 		x.assumeWF(s, v.Type(), val)
+		x.assumePreexisting(s, v.Type(), val)
 		x.collectSlices(v.Type(), val, hint, &slices)
 		return val
 	}
@@ -180,8 +221,7 @@ func Verify(w *World, c *Contract) (res *FuncResult) {
 	if sig.Recv() != nil {
 		recv = mk(sig.Recv(), sig.Recv().Name())
 		if _, isPtr := sig.Recv().Type().Underlying().(*types.Pointer); isPtr {
-			s.assume(Ne(recv.(*Scalar).T, I64(0)))
-			s.assume(Ule(recv.(*Scalar).T, BVLit(maxObj, 64)))
+			s.assume(Ne(recv.(*PtrV).Rgn, I64(0)))
 			x.note("assumed", "receiver of "+res.Name+" is non-nil")
 		}
 	}
@@ -192,13 +232,13 @@ func Verify(w *World, c *Contract) (res *FuncResult) {
 	// distinct slice parameters do not overlap
 	for i := range slices {
 		a := slices[i]
-		x.addRegionNoAssume(s, region{mem: memName(a.et), base: a.v.Ptr, size: a.v.Cap, tag: "param:" + a.nm})
+		x.addRegionNoAssume(s, region{mem: memName(a.et), rgn: a.v.Rgn, tag: "param:" + a.nm})
 		for j := 0; j < i; j++ {
 			b := slices[j]
 			if memName(a.et) != memName(b.et) || x.mayAlias(c, a.nm, b.nm) {
 				continue
 			}
-			s.assume(Or(Eq(a.v.Cap, I64(0)), Eq(b.v.Cap, I64(0)), Ule(Add64(a.v.Ptr, a.v.Cap), b.v.Ptr), Ule(Add64(b.v.Ptr, b.v.Cap), a.v.Ptr)))
+			s.assume(Or(Eq(a.v.Cap, I64(0)), Eq(b.v.Cap, I64(0)), Ne(a.v.Rgn, b.v.Rgn)))
 			x.note("assumed", fmt.Sprintf("non-aliasing: slice parameters %s and %s of %s do not overlap", b.nm, a.nm, res.Name))
 		}
 	}
@@ -210,8 +250,8 @@ func Verify(w *World, c *Contract) (res *FuncResult) {
 	x.initGhost(s, fr, c)
 	for _, nn := range c.NonNil {
 		v := x.specExpr(s, fr, nn.Expr)
-		if sc, ok := v.(*Scalar); ok && sc.T.Sort == SBV64 {
-			s.assume(Ne(sc.T, I64(0)))
+		if p, ok := v.(*PtrV); ok {
+			s.assume(Ne(p.Rgn, I64(0)))
 		}
 	}
 	for _, r := range c.Requires {
@@ -225,6 +265,7 @@ func Verify(w *World, c *Contract) (res *FuncResult) {
 		x.cover(s, "cover/requires", True, "preconditions are satisfiable")
 	}
 	x.entry = s.fork()
+	x.curRun = &runInfo{entry: x.entry, recv: recv, args: args, sig: sig, x: x}
 	x.buildFrame(s, fr, c)
 	x.runBody(s, fr, c.Body, c.Body.Pos())
 	// postconditions at every return
@@ -271,16 +312,16 @@ func Verify(w *World, c *Contract) (res *FuncResult) {
 			g := x.specCond(rs, fr, br.Expr)
 			x.oblige(rs, "return-order", fmt.Sprintf("return.order#%d", br.Dir.Ord), Implies(cond, g), r.pos, "before return "+br.Dir.Ret+": "+br.Text)
 		}
-		for _, e := range c.Ensures {
+		for i := range c.Ensures {
+			e := c.Ensures[i]
 			g := x.specCond(rs, fr, e.Expr)
+			x.curCExpr = &c.Ensures[i]
 			x.oblige(rs, "ensures", fmt.Sprintf("ensures#%d", e.Dir.Ord), g, r.pos, e.Text)
+			x.curCExpr = nil
 		}
 		x.cover(rs, "canary/return", True, "return is reachable")
 	}
-	if nret == 0 && (len(c.Ensures) > 0) {
-		x.errs = append(x.errs, "no reachable return in "+res.Name)
-	}
-	return res
+	return nret
 }
 
 func (x *Exec) isParam(fr *Frame, v *types.Var) bool {
@@ -374,15 +415,17 @@ func (x *Exec) captureFree(s *State, fr *Frame, c *Contract) {
 			}()
 			val := x.fresh(s, v.Type(), v.Name())
 			x.assumeWF(s, v.Type(), val)
+			x.assumePreexisting(s, v.Type(), val)
 			if _, isPtr := v.Type().Underlying().(*types.Pointer); isPtr {
 				// captured receivers/pointers of the enclosing method are assumed non-nil
-				s.assume(Ne(val.(*Scalar).T, I64(0)))
+				s.assume(Ne(val.(*PtrV).Rgn, I64(0)))
 			}
 			if x.escapes(fr, v) {
-				addr := x.ctx.Fresh("loc$"+v.Name(), SBV64)
-				x.addRegion(s, region{mem: memName(v.Type()), base: addr, size: I64(1), tag: "local"}, true)
-				x.store(s, memName(v.Type()), v.Type(), addr, val)
-				s.vars[v] = &heapVar{addr: addr}
+				rgn := x.ctx.Fresh("loc$"+v.Name(), SBV64)
+				s.assume(Ne(rgn, I64(0)))
+				s.assume(Ult(rgn, BVLit(firstAlloc, 64)))
+				x.store(s, memName(v.Type()), v.Type(), rgn, I64(0), val)
+				s.vars[v] = &heapVar{rgn: rgn}
 			} else {
 				s.vars[v] = val
 			}
